@@ -56,7 +56,8 @@ REQUIRED_MONITORS = ["cell-count", "old-vertices-kept", "valid-mesh", "no-duplic
                      "boundaries-propagated", "dropped-tags-warned", "second-order-nodes-straight"]
 REQUIRED_REACH = ["exact-mode", "tolerant-mode", "levels>=2", "interior-facet-tagged", "oriented-boundary-tagged",
                   "boundaries-dropped-with-warning", "child-layout-not-blocked", "history:restrict",
-                  "history:mirrored", "stepwise", "second-order-parent", "several-components", "docs-meshes-refined"]
+                  "history:mirrored", "stepwise", "second-order-parent", "several-components", "docs-meshes-refined",
+                  "unsorted-triangle-cells"]
 ASSUMPTIONS = [
     "the vertex order conventions of the reference cells (rv.exact.QUAD_CORNERS / HEX_CORNERS, unit simplices) define "
     "what a cell is; Mesh.facets[:, i] defines which vertices facet index i designates (judged under C11)",
@@ -887,6 +888,15 @@ def base_mesh(ctx, rng, kind, nmax, allow_inexact=True):
             p = p * (1.0 / 3.0)
             desc["scaled"] = "1/3"
     desc["ncells"] = int(t.shape[1])
+    if kind == "tri" and rng.random() < 0.35:
+        # cells kept in the local vertex order given (what loaded, oriented and second-order meshes have)
+        for c in range(t.shape[1]):
+            t[:, c] = t[rng.permutation(3), c]
+        m = G.mesh_class(kind, 1)(p, t, sort_t=False)
+        if np.array_equal(np.asarray(m.t), t):
+            desc["unsorted_cells"] = True
+            ctx.reached("unsorted-triangle-cells")
+            return m, desc
     return G.mesh_class(kind, 1)(p, t), desc
 
 
